@@ -145,7 +145,7 @@ func TestC09(t *testing.T) {
 	}
 	var glist []*msgInfo
 	var dmsgs []message.Message
-	for _, mi := range genv.layouts {
+	for _, mi := range genv.sorted() {
 		glist = append(glist, mi)
 		dmsgs = append(dmsgs, mi.Msg)
 	}
